@@ -48,7 +48,7 @@ func genCase(t *rapid.T) Case {
 		DebugLog: rapid.IntRange(0, 3).Draw(t, "debuglog") == 0}
 	c.Spec = specgen.Desc{Base: rapid.SampledFrom(specgen.BaseNames()).Draw(t, "base")}
 	if rapid.IntRange(0, 3).Draw(t, "own-tps") != 0 {
-		c.Spec.TPs = specgen.GenTPs(t, 2, 10)
+		c.Spec.TPs = specgen.GenTPsOpt(t, 2, 10, specgen.TPOptions{RawStd: true})
 	}
 	if rapid.IntRange(0, 2).Draw(t, "e-suppress") != 0 {
 		pool := []uint64{0x01, 0x03, 0x04, 0x05, 0x06, 0x07, 0x08, 0x09, 0x0b, 0x0c, 0x0e, 0x20, 27, 27, 0x11, 0x2ab2, 0x4752, 0x3127, 0x7157, 12345, 58, 999}
@@ -63,12 +63,30 @@ func genCase(t *rapid.T) Case {
 		v := rapid.SampledFrom([]int{0, 4, 8, 20}).Draw(t, "src")
 		c.Spec.SrcCID = &v
 	}
+	// initial_source_connection_id in raw form meets a non-empty source connection ID often (Chrome bases have none)
+	if rawISCID(c.Spec.TPs) && c.Spec.SrcCID == nil && rapid.Bool().Draw(t, "e-src-raw") {
+		v := rapid.SampledFrom([]int{4, 8, 20}).Draw(t, "src-raw")
+		c.Spec.SrcCID = &v
+	}
 	return c
+}
+
+func rawISCID(tps []specgen.TPDesc) bool {
+	for _, tp := range tps {
+		if tp.K == "fake" && tp.ID == 0x0f {
+			return true
+		}
+	}
+	return false
 }
 
 type idval struct {
 	id uint64
 	v  []byte
+	// fill: the typed placeholder tls.InitialSourceConnectionID{} ("if empty, will be set to the Connection ID used for
+	// the Initial packet", utls). Only that one is filled in; a parameter in raw form (tls.FakeQUICTransportParameter)
+	// says what its bytes are, also when the id is 0x0f and the value is empty.
+	fill bool
 }
 
 func (x idval) String() string { return fmt.Sprintf("%#x=%x", x.id, norm(x.id, x.v)) }
@@ -119,10 +137,12 @@ func expectedTPs(spec *quic.QUICSpec, scid []byte) []idval {
 			continue
 		}
 		v := tp.Value()
-		if id == 0x0f && len(v) == 0 {
-			v = scid // an empty initial_source_connection_id is filled in with the connection's own ID
+		_, typed := tp.(tls.InitialSourceConnectionID)
+		fill := typed && len(v) == 0
+		if fill {
+			v = scid // the empty typed initial_source_connection_id is filled in with the connection's own ID
 		}
-		out = append(out, idval{id, append([]byte(nil), v...)})
+		out = append(out, idval{id, append([]byte(nil), v...), fill})
 	}
 	return out
 }
@@ -166,7 +186,7 @@ func checkCase(c Case, u *vf.Unit) *vf.Verdict {
 		}
 		want := make([]idval, len(pristine))
 		for i, iv := range pristine {
-			want[i] = idval{iv.id, append([]byte(nil), iv.v...)}
+			want[i] = idval{iv.id, append([]byte(nil), iv.v...), iv.fill}
 		}
 		var preReports [][]uint64
 		for i := 0; i < c.PreIDs; i++ {
@@ -204,8 +224,8 @@ func checkCase(c Case, u *vf.Unit) *vf.Verdict {
 			return vf.Bad("C11/tp/malformed", "dial %d: quic_transport_parameters does not parse: %v (%x)", dial+1, err, raw)
 		}
 		for i := range want {
-			if want[i].id == 0x0f && len(want[i].v) == 0 {
-				want[i].v = scid // an empty initial_source_connection_id is filled in with the connection's own ID
+			if want[i].fill {
+				want[i].v = scid // the typed placeholder is filled in with the connection's own ID
 			}
 		}
 		if c.Reuse && dial > 0 {
@@ -216,7 +236,7 @@ func checkCase(c Case, u *vf.Unit) *vf.Verdict {
 		}
 		var got []idval
 		for _, p := range wire {
-			got = append(got, idval{p.ID, p.Value})
+			got = append(got, idval{p.ID, p.Value, false})
 		}
 		gs, ws := fmt.Sprint(got), fmt.Sprint(want)
 		if spec.RandomizeTransportParameters {
@@ -320,6 +340,7 @@ func checkCase(c Case, u *vf.Unit) *vf.Verdict {
 		u.Class("same-permutation-twice") // expected with probability 1/n!; counted, not a violation
 	}
 	d := c.Spec
+	classifyRaw(c, spec, u)
 	hasGrease, hasFake := false, false
 	for _, t := range d.TPs {
 		hasGrease = hasGrease || t.K == "grease"
@@ -336,6 +357,46 @@ func checkCase(c Case, u *vf.Unit) *vf.Verdict {
 		}
 	}
 	return nil
+}
+
+// classifyRaw counts the raw-form dimension of a checked case.
+func classifyRaw(c Case, spec *quic.QUICSpec, u *vf.Unit) {
+	scidLen := spec.InitialPacketSpec.SrcConnIDLength
+	suppressed := map[uint64]bool{}
+	for _, id := range c.Spec.Suppress {
+		suppressed[id] = true
+	}
+	std := map[uint64]bool{0x01: true, 0x03: true, 0x04: true, 0x05: true, 0x06: true, 0x07: true, 0x08: true, 0x09: true, 0x0a: true, 0x0b: true, 0x0c: true, 0x0e: true, 0x20: true, 0x2ab2: true}
+	for _, tp := range c.Spec.TPs {
+		if suppressed[tp.ID] && tp.K == "fake" {
+			continue
+		}
+		switch {
+		case tp.K == "iscid" && len(tp.V) == 0:
+			u.Class("iscid:typed-placeholder")
+		case tp.K == "iscid":
+			u.Class("iscid:typed-value")
+		case tp.K == "fake" && tp.ID == 0x0f && len(tp.V) == 0 && scidLen > 0:
+			u.Class("iscid:raw-empty,scid>0")
+		case tp.K == "fake" && tp.ID == 0x0f && len(tp.V) == 0:
+			u.Class("iscid:raw-empty,scid=0")
+		case tp.K == "fake" && tp.ID == 0x0f:
+			u.Class("iscid:raw-value")
+		case tp.K == "fake" && std[tp.ID]:
+			v, n, err := refwire.ReadVarint(tp.V)
+			ok := err == nil
+			switch {
+			case len(tp.V) == 0:
+				u.Class("raw-std:empty")
+			case ok && n == len(tp.V) && n > refwire.VarintLen(v):
+				u.Class("raw-std:non-minimal-varint")
+			case ok && n == len(tp.V):
+				u.Class("raw-std:minimal-varint")
+			default:
+				u.Class("raw-std:bytes")
+			}
+		}
+	}
 }
 
 func qtpExt2(c Case) []specgen.TPDesc { return c.Spec.TPs }
@@ -372,7 +433,7 @@ type PureCase struct {
 }
 
 func genPure(t *rapid.T) PureCase {
-	c := PureCase{TPs: specgen.GenTPs(t, 0, 12)}
+	c := PureCase{TPs: specgen.GenTPsOpt(t, 0, 12, specgen.TPOptions{RawStd: true})}
 	pool := []uint64{0x01, 0x03, 0x04, 0x05, 0x06, 0x07, 0x08, 0x09, 0x0b, 0x0e, 0x0f, 0x20, 27, 27, 58, 0x11, 0x2ab2, 0x4752, 0x3127, 0x7157, 12345, 999}
 	n := rapid.IntRange(0, 6).Draw(t, "nsupp")
 	for i := 0; i < n; i++ {
@@ -384,7 +445,7 @@ func genPure(t *rapid.T) PureCase {
 func listOf(q *tls.QUICTransportParametersExtension) []idval {
 	var out []idval
 	for _, tp := range q.TransportParameters {
-		out = append(out, idval{tp.ID(), append([]byte(nil), tp.Value()...)})
+		out = append(out, idval{tp.ID(), append([]byte(nil), tp.Value()...), false})
 	}
 	return out
 }
